@@ -1137,3 +1137,8 @@ func (e *Engine) anyFieldID(s string) (int, error) {
 	}
 	return e.FID(t, idx), nil
 }
+
+// ApplyTerm is applyTerm for client spec functions.
+func (e *Engine) ApplyTerm(fv Val, args []Val, sig *types.Signature, i int) Val {
+	return e.applyTerm(fv, args, sig, i)
+}
